@@ -100,7 +100,10 @@ def make_case(family, i, rng, tier):
         # messages arrive compressed (history carried or not, as negotiated)
         case['deflate'] = {'sw': rng.choice([8, 9, 11, 15]),
                            'snct': rng.random() < 0.4,
-                           'cnct': rng.random() < 0.4}
+                           'cnct': rng.random() < 0.4,
+                           # the server ends its deflate streams with final
+                           # blocks: k finished streams per message
+                           'bfinal': rng.choice([0, 0, 0, 1, 4, 6])}
         for it in items:
             if it['kind'] in ('text', 'binary'):
                 it['z'] = rng.random() < 0.75
@@ -130,6 +133,19 @@ def build(case):
         dp = peer.DeflatePeer(dfl['sw'], 15, dfl['snct'], dfl['cnct'])
 
         def transform(payload, it):
+            if it.get('z') and dfl.get('bfinal') and len(payload) > 8:
+                # RFC 7692 7.2.3.4, several times in one message: finished
+                # streams one after the other, then the 0x00
+                import zlib
+                k = dfl['bfinal']
+                step = (len(payload) + k - 1) // k
+                out = b''
+                for j in range(0, len(payload), step):
+                    c = zlib.compressobj(6, zlib.DEFLATED, -max(9, dfl['sw']))
+                    out += c.compress(payload[j:j + step]) + \
+                        c.flush(zlib.Z_FINISH)
+                dp._c = None
+                return out + b'\x00', 1
             if it.get('z'):
                 return dp.compress(payload), 1
             return payload, 0
